@@ -78,6 +78,8 @@ class RcFnTr(FnTr):
             return ("core", [f"({lname(n)} : σ)"], ("named", "@core"))
         if core in ("Self::Seed",) and self.u.seedable:
             return ("bytes_in", [f"({lname(n)} : List U8)"], ("slice", "u8"))
+        if core in ("Self", self.u.sinfo.name) and not mutref:
+            return ("selfval", [f"({lname(n)} : {self.u.sinfo.lean})"], ("named", "Self"))
         ty = parse_ty(s)
         return ("plain", [f"({lname(n)} : {lean_ty(ty)})"], ty)
 
@@ -638,7 +640,7 @@ def build_units(report):
     for sname, w, lean in (("BlockRng", 32, "BlockRng σ"), ("BlockRng64", 64, "BlockRng64 σ")):
         ms = {}
         for trait, ty, fns, consts in fb.impls:
-            if ty == sname and trait in (None, "RngCore"):
+            if ty == sname and trait in (None, "RngCore", "SeedableRng"):
                 ms.update({k: v for k, v in fns.items() if v.body is not None})
         fields = {"results": (("slice", f"u{w}"), "results"), "index": ("nat", "index"), "core": (("named", "@core"), "core")}
         if sname == "BlockRng64":
@@ -647,8 +649,16 @@ def build_units(report):
         if sorted(want) != sorted(fields):
             report["RandCore" + sname] = dict(error=f"fields of {sname} are {want}")
             continue
+        L = ["{σ : Type}", f"(c : BlockCore σ {w})"]
         u = RcUnit("RandCore" + sname, StructInfo(sname, lean, fields), ms, "Rngs.Ext.RandCore" + sname,
-                   ["{σ : Type}", f"(c : BlockCore σ {w})"], ["c"], generics="R : BlockRngCore", core_param="R", word=f"u{w}")
+                   L, ["c"], generics="R : BlockRngCore", core_param="R", word=f"u{w}",
+                   fn_lead={"from_seed": (L + ["(r_from_seed : List U8 → σ)"], ["c", "r_from_seed"]),
+                            "seed_from_u64": (L + ["(r_seed_from_u64 : U64 → σ)"], ["c", "r_seed_from_u64"]),
+                            "from_rng": (["{σ ρ : Type}", L[1], "(r_from_rng : TryFill ρ → ρ → Except SrcErr σ × ρ)"], ["c", "r_from_rng"]),
+                            "try_from_rng": (["{σ ρ : Type}", L[1], "(r_try_from_rng : TryFill ρ → ρ → Except SrcErr σ × ρ)"], ["c", "r_try_from_rng"])})
+        # the SeedableRng of the type parameter R, abstracted as functions
+        u.fn_terms = {"R::from_seed": ("bytes1", "r_from_seed", ("named", "@core")), "R::seed_from_u64": ("plain1", "r_seed_from_u64", ("named", "@core"))}
+        u.src_callees = {"R::from_rng": "r_from_rng", "R::try_from_rng": "r_try_from_rng"}
         u.shape, u.seed_len, u.file = ("rand_core", w), None, "rand_core-0.9.5/src/block.rs"
         # `fill_via_chunks(src, dest)` of impls.rs at T = u32 / u64: `size_of::<T>()` and `<T as Observable>::to_le_bytes`
         if obs.get(f"u{w}") == "Self::to_le_bytes(self)" and "fill_via_chunks" in fi.fns:
@@ -656,7 +666,8 @@ def build_units(report):
                                              ret=("named", "(usize,usize)"), rc=[("words", "src"), ("bytes", "dest")])
             u.callee_ns["fill_via_chunks"] = "Rngs.Ext.RandCore"
             u.callee_lead["fill_via_chunks"] = [str(w // 8), f"U{w}.toLE"]
-        yield u, ["new", "index", "reset", "generate_and_set", "next_u32", "next_u64", "fill_bytes"]
+        yield u, ["new", "index", "reset", "generate_and_set", "next_u32", "next_u64", "fill_bytes", "from_seed", "seed_from_u64",
+                  "from_rng", "try_from_rng"]
     # lib.rs: the default methods of SeedableRng
     tr = fr.traits.get("SeedableRng")
     if tr is None:
@@ -1106,3 +1117,275 @@ def _install():
     C.body_to_lean = body_to_lean
 
 _install()
+
+# ------------------------------------------------------------------ constructors that pass the byte source on, wrapper types
+def _install2():
+    C = RcFnTr
+    base_body, base_call, base_classify = C.body_to_lean, C.call, C.classify
+
+    def classify(self, n, toks, gen, mutref, body_text):
+        s = "".join(t[1] for t in toks)
+        core = s[4:] if s.startswith("&mut") else (s[1:] if s.startswith("&") else s)
+        if core == "Self::Seed" and (self.u.core_param or getattr(self.u, "wrap", None)):
+            return ("bytes_in", [f"({lname(n)} : List U8)"], ("slice", "u8"))
+        k = base_classify(self, n, toks, gen, mutref, body_text)
+        if k[0] == "direct" and self.src_call_in(body_text, n):
+            return ("src", [f"(fill : TryFill ρ) ({lname(n)} : ρ)"], None)
+        return k
+    C.classify = classify
+
+    def src_call_in(self, body_text, n):
+        return re.search(r":: (try_)?from_rng \( " + re.escape(n) + r" \)", body_text) is not None
+    C.src_call_in = src_call_in
+
+    def src_callee(self, f):
+        """Lean text of a constructor that takes the byte source (`R::from_rng`, `BlockRng::<Core>::try_from_rng`), applied to
+        everything but `fill rng`; None when the path is not one"""
+        if f[0] != "path" or f[1][-1] not in ("from_rng", "try_from_rng"):
+            return None
+        t = self.u.src_callees.get("::".join(f[1]))
+        return t
+    C.src_callee = src_callee
+
+    def one_arg_fn(self, f, v):
+        """`F(v)` for a path F used as a function of one argument: `Self::new`, the constructor of a newtype"""
+        if f[0] != "path":
+            raise Unsupported("function value")
+        full = "::".join(f[1])
+        if full in ("Self::new",) and "new" in self.u.sigs:
+            return f"({self.u.extern.get('new') or self.u.namespace + '.new'} {v})"
+        if len(f[1]) == 1 and f[1][0] == getattr(self.u, "newtype", None):
+            return v
+        raise Unsupported(f"function value {full}")
+    C.one_arg_fn = one_arg_fn
+
+    def body_to_lean(self, stmts, tail, ret_ty, selfkind):
+        if self.rng is not None and tail is not None and not any(_contains_return(s) for s in stmts):
+            t = tail
+            while t[0] == "paren":
+                t = t[1]
+            S = F = None
+            if t[0] == "call" and len(t[2]) == 1 and t[2][0][0] == "call" and self.src_callee(t[2][0][1]) is not None:
+                F, S = t[1], t[2][0]                                      # F(S(rng))
+            elif t[0] == "mcall" and t[2] == "map" and len(t[3]) == 1 and t[1][0] == "call" and self.src_callee(t[1][1]) is not None:
+                F, S = t[3][0], t[1]                                      # S(rng).map(F)
+            if S is not None:
+                if S[2] != [("path", [self.rng.name])]:
+                    raise Unsupported("constructor from a source with other arguments")
+                fallible = S[1][1][-1] == "try_from_rng"
+                if fallible != self.rng_fallible or (fallible and t[0] != "mcall") or (not fallible and t[0] != "call"):
+                    raise Unsupported("from_rng / try_from_rng does not match the result type")
+                self.stmts(stmts)
+                v, er, rng = self.fresh("v"), self.fresh("err"), self.rng.lean
+                return (f"match {self.src_callee(S[1])} fill {rng} with\n  | (.ok {v}, {rng}) => (.ok {self.one_arg_fn(F, v)}, {rng})"
+                        f"\n  | (.error {er}, {rng}) => (.error {er}, {rng})")
+        return base_body(self, stmts, tail, ret_ty, selfkind)
+    C.body_to_lean = body_to_lean
+
+    def call(self, e, want):
+        f, args = e[1], e[2]
+        if f[0] == "path":
+            full = "::".join(f[1])
+            t = self.u.fn_terms.get(full)
+            if t is not None:
+                kind, text, ret = t
+                if kind == "bytes1" and len(args) == 1:
+                    return Val(f"{text} {Val(self.bytes_of(args[0]), None).atom()}", ret)
+                if kind == "plain1" and len(args) == 1:
+                    return Val(f"{text} {self.expr(args[0]).atom()}", ret)
+            if len(f[1]) == 1 and f[1][0] == getattr(self.u, "newtype", None) and len(args) == 1:
+                return self.expr(args[0], want)                            # the constructor of a newtype
+        return base_call(self, e, want)
+    C.call = call
+
+_install2()
+RcUnit.src_callees = {}
+RcUnit.fn_terms = {}
+
+def _install3():
+    """the wrapper types `Hc128Rng(BlockRng<Hc128Core>)`, `IsaacRng(BlockRng<IsaacCore>)`, `Isaac64Rng(BlockRng64<Isaac64Core>)`:
+    `self.0` is the state itself; its methods are the translated ones of RandCoreBlockRng(64) at the core's BlockCore"""
+    C = RcFnTr
+    base_mcall, base_read, base_binop = C.mcall, C.read_place, C.binop
+
+    def is_inner(self, v):
+        return v.ty == ("named", "@blockrng")
+
+    def mcall(self, e, want):
+        _, recv, name, args = e
+        wr = getattr(self.u, "wrap", None)
+        if wr is not None and name in ("next_u32", "next_u64", "fill_bytes", "index") and recv[0] == "field" and recv[2] == "0":
+            v = self.expr(recv)
+            if v.ty == ("named", "@blockrng"):
+                fn = f"Rngs.Ext.{wr['block']}.{name} {wr['C']}"
+                if name == "index" and not args:
+                    return Val(f"{fn} {v.atom()}", "nat")
+                if name in ("next_u32", "next_u64") and not args:
+                    t = self.fresh("r")
+                    self.emit(f"let {t} := {fn} {v.atom()};")
+                    self.write_place(recv, Val(f"{t}.2", v.ty))
+                    return Val(f"{t}.1", "u32" if name == "next_u32" else "u64")
+                if name == "fill_bytes" and len(args) == 1:
+                    d = self.dyn_of(args[0])
+                    if d is None or d.off != "0" or d.len not in (f"{d.base.lean}.length", getattr(d.base, "len_name", None)):
+                        raise Unsupported("fill_bytes into part of a buffer")
+                    fuel = f"fuel_{len(self.fuels) + 1}"
+                    self.fuels.append(fuel)
+                    t = self.fresh("r")
+                    self.emit(f"let {t} := Rngs.Ext.{wr['block']}.fill_bytes {wr['C']} {fuel} {v.atom()} {d.base.lean};")
+                    self.emit(f"let {d.base.lean} := {t}.1;")
+                    self.write_place(recv, Val(f"{t}.2", v.ty))
+                    return Val("()", "unit")
+        return base_mcall(self, e, want)
+    C.mcall = mcall
+
+    def read_place(self, e, want=None):
+        wr = getattr(self.u, "wrap", None)
+        if wr is not None and e[0] == "field" and e[2] in ("core",) and e[1][0] == "field" and e[1][2] == "0":
+            v = self.expr(e[1])
+            if v.ty == ("named", "@blockrng"):
+                return Val(f"{v.atom()}.core", ("named", "@coreval"))
+        return base_read(self, e, want)
+    C.read_place = read_place
+
+    def binop(self, op, l, r, want, pre=None):
+        wr = getattr(self.u, "wrap", None)
+        if wr is not None and pre is None and op in ("==", "!="):
+            a = self.expr(l)
+            n0 = len(self.lines)
+            b = self.expr(r, a.ty if a.ty in INT or a.ty == "nat" else None)
+            a = self.pin(a, n0)
+            if a.ty == ("named", "@coreval") and b.ty == ("named", "@coreval"):
+                t = f"Rngs.Ext.{wr['core_unit']}.eq {a.atom()} {b.atom()}"      # the core's own PartialEq
+                return Val(t if op == "==" else f"!({t})", "bool")
+            return base_binop(self, op, None, None, want, pre=(a, b))
+        return base_binop(self, op, l, r, want, pre)
+    C.binop = binop
+
+_install3()
+
+def build_wrapper_units(repo, report, avail):
+    """`avail`: fully qualified names of the definitions translated so far (cores, rand_core)"""
+    import extract_units
+    specs = [("rand_hc/src/hc128.rs", "Hc128Rng", "Hc128Core", 32, "BlockRng", "Hc128.Core"),
+             ("rand_isaac/src/isaac.rs", "IsaacRng", "IsaacCore", 32, "BlockRng", "Isaac.Core 32"),
+             ("rand_isaac/src/isaac64.rs", "Isaac64Rng", "Isaac64Core", 64, "BlockRng64", "Isaac.Core 64")]
+    for path, wname, cname, w, bname, core_lean in specs:
+        try:
+            f = rsfront.load(os.path.join(repo, path))
+            st = f.structs.get(wname)
+            inner = "".join(t[1] for t in st[0][1]) if st and len(st) == 1 else None
+            if inner != f"{bname}<{cname}>":
+                raise Unsupported(f"{wname} is not a newtype of {bname}<{cname}>")
+            consts, vals = extract_units.file_consts(f)
+            if cname != "Hc128Core":
+                vals = dict(vals)
+            TYCTX["aliases"], TYCTX["consts"] = {k: "".join(t[1] for t in toks) for k, toks in f.types.items()}, vals
+            # length of the core's results buffer and of its seed
+            cms, cali = extract_units.methods_of(f, cname)
+            res = cali.get("Self::Results", "")
+            m = re.match(r"^\[\w+;(.+)\]$", res)
+            n = rs2lean.const_int(m.group(1)) if m else (vals.get("RAND_SIZE") if res.startswith("IsaacArray<") else None)
+            seed = cali.get("Self::Seed", "")
+            m = re.match(r"^\[u8;(.+)\]$", seed)
+            slen = rs2lean.const_int(m.group(1)) if m else None
+            if n is None or slen is None:
+                raise Unsupported(f"results / seed type of {cname}")
+            ce, blk, sd = f"Rngs.Ext.{cname}", f"Rngs.Ext.RandCore{bname}", "Rngs.Ext.RandCoreSeedable"
+            Cterm = f"(⟨{n}, {ce}.generate⟩ : BlockCore ({core_lean}) {w})"
+            need = [f"{ce}.generate", f"{ce}.from_seed", f"{ce}.eq"] + [f"{blk}.{x}" for x in ("next_u32", "next_u64", "fill_bytes", "index", "from_seed", "from_rng", "try_from_rng")]
+            missing = [x for x in need if x not in avail]
+            # the core's SeedableRng: its own functions where it defines them, rand_core's defaults otherwise
+            own = {k for k in ("seed_from_u64", "from_rng", "try_from_rng") if k in cms}
+            t_seed = f"{ce}.seed_from_u64" if "seed_from_u64" in own else f"({sd}.seed_from_u64 {slen} {ce}.from_seed)"
+            t_rng = f"{ce}.from_rng" if "from_rng" in own else f"({sd}.from_rng {slen} {ce}.from_seed)"
+            t_try = f"{ce}.try_from_rng" if "try_from_rng" in own else f"({sd}.try_from_rng {slen} {ce}.from_seed)"
+            for k in own:
+                if f"{ce}.{k}" not in avail:
+                    missing.append(f"{ce}.{k}")
+            ms = {}
+            for trait, ty, fns, consts_ in f.impls:
+                if ty == wname and trait in ("RngCore", "SeedableRng", "PartialEq", "::core::cmp::PartialEq"):
+                    ms.update({k: v for k, v in fns.items() if v.body is not None})
+            u = RcUnit(wname, StructInfo(wname, f"{bname} ({core_lean})", {"0": (("named", "@blockrng"), None)}), ms,
+                       f"Rngs.Ext.{wname}", [], [], fn_lead={"from_rng": (["{ρ : Type}"], []), "try_from_rng": (["{ρ : Type}"], [])})
+            u.wrap = dict(block=f"RandCore{bname}", C=Cterm, core_unit=cname, n=n, w=w, seed_len=slen, core_lean=core_lean, bname=bname)
+            u.newtype = wname
+            u.fn_terms = {f"{bname}::from_seed": ("bytes1", f"{blk}.from_seed {Cterm} {ce}.from_seed", ("named", "Self")),
+                          f"{bname}::seed_from_u64": ("plain1", f"{blk}.seed_from_u64 {Cterm} {t_seed}", ("named", "Self"))}
+            u.src_callees = {f"{bname}::from_rng": f"{blk}.from_rng {Cterm} {t_rng}", f"{bname}::try_from_rng": f"{blk}.try_from_rng {Cterm} {t_try}"}
+            u.shape, u.seed_len, u.file = ("wrapper", w), slen, path
+            if missing:
+                report[wname] = dict(file=path, error=f"depends on {missing[0]}, which is not translated")
+                continue
+            yield u, ["next_u32", "next_u64", "fill_bytes", "from_seed", "seed_from_u64", "from_rng", "try_from_rng", "eq"]
+        except Exception as e:
+            report[wname] = dict(error=repr(e))
+
+# ------------------------------------------------------------------ theorems: BlockRng's SeedableRng impl, wrappers
+def _block_seedable(G, M, w):
+    E = f"Ext.{G}"
+    L = f"∀ {{σ : Type}} (c : BlockCore σ {w})"
+    LR = f"∀ {{σ ρ : Type}} (c : BlockCore σ {w})"
+    m = (lambda fn: f"(match f fill src with | (.ok v, s) => (.ok ({M}.new c v), s) | (.error e, s) => (.error e, s))")
+    return {
+        "from_seed": (f"{L} (f : List U8 → σ) (seed : List U8), {E}.from_seed c f seed = {M}.new c (f seed)", ["C09"],
+                      f"intros\n  simp only [{E}.from_seed, ExtTie.{G}.new]"),
+        "seed_from_u64": (f"{L} (f : U64 → σ) (x : U64), {E}.seed_from_u64 c f x = {M}.new c (f x)", ["C09"],
+                          f"intros\n  simp only [{E}.seed_from_u64, ExtTie.{G}.new]"),
+        "from_rng": (f"{LR} (f : TryFill ρ → ρ → Except SrcErr σ × ρ) (fill : TryFill ρ) (src : ρ), {E}.from_rng c f fill src = {m('from_rng')}",
+                     ["C09"], f"intros\n  simp only [{E}.from_rng, ExtTie.{G}.new]"),
+        "try_from_rng": (f"{LR} (f : TryFill ρ → ρ → Except SrcErr σ × ρ) (fill : TryFill ρ) (src : ρ), {E}.try_from_rng c f fill src = {m('try_from_rng')}",
+                         ["C09"], f"intros\n  simp only [{E}.try_from_rng, ExtTie.{G}.new]"),
+    }
+RC_THEOREMS["RandCoreBlockRng"].update(_block_seedable("RandCoreBlockRng", "BlockRng", 32))
+RC_THEOREMS["RandCoreBlockRng64"].update(_block_seedable("RandCoreBlockRng64", "BlockRng64", 64))
+
+def wrapper_theorems(u, done):
+    wr = u.wrap
+    G, E, B, Cn, w, n, slen = u.name, f"Ext.{u.name}", wr["bname"], wr["core_unit"], wr["w"], wr["n"], wr["seed_len"]
+    blk = f"RandCore{B}"
+    C = wr["C"].replace("Rngs.Ext.", "Ext.")
+    hc = G == "Hc128Rng"
+    MC = "Hc128.blockCore" if hc else f"Isaac.blockCore{w}"
+    gen = "Hc128.generate" if hc else f"Isaac.generate Isaac.params{w}"
+    szok = "BlockRefine.hc128_sizeOK" if hc else f"BlockRefine.isaac{w}_sizeOK"
+    have_c = (f"have hg : Ext.{Cn}.generate = {gen} := by\n    funext st r\n    exact ExtTie.{Cn}.generate st r\n"
+              f"  have hc : {C} = {MC} := by\n    show _ = (⟨{n}, {gen}⟩ : BlockCore _ {w})\n    rw [hg]")
+    M = {"next_u32": "Hc128.nextU32 st" if hc else f"{B}.nextU32 {MC} st", "next_u64": "Hc128.nextU64 st" if hc else f"{B}.nextU64 {MC} st"}
+    fill = (lambda x: f"(Hc128.fill dest.length st)" if hc else f"({B}.fillBytes {MC} dest.length st)")
+    th, proofs = [], {}
+    def add(fn, stmt, props, proof):
+        if fn in done:
+            th.append((f"{G}.{fn}", stmt, props, fn)); proofs[f"{G}.{fn}"] = proof
+    T = u.sinfo.lean
+    for fn in ("next_u32", "next_u64"):
+        add(fn, f"∀ (st : {T}), st.results.size = {n} → {E}.{fn} st = {M[fn]}", ["C05", "C02" if hc else "C03"],
+            f"intro st h\n  {have_c}\n  simp only [{E}.{fn}]\n  rw [ExtTie.{blk}.{fn} _ st h, hc]\n  first | done | rfl")
+    add("fill_bytes", f"∀ (st : {T}) (dest : List U8), st.results.size = {n} → {E}.fill_bytes (dest.length + 1) st dest = "
+                      f"({fill(0)}.1 ++ dest.drop {fill(0)}.1.length, {fill(0)}.2)", ["C05"],
+        f"intro st dest h\n  {have_c}\n  have hs : BlockRefine.SizeOK {C} := hc ▸ {szok}\n  simp only [{E}.fill_bytes]\n"
+        f"  rw [ExtTie.{blk}.fill_bytes _ _ st dest hs h, hc]\n  first | done | rfl")
+    fs = "Hc128.fromSeed" if hc else f"Isaac.fromSeed{w}"
+    cfs = f"ExtTie.{Cn}.from_seed"
+    add("from_seed", f"∀ seed, {E}.from_seed seed = {fs} seed", ["C09"],
+        f"intro seed\n  {have_c}\n  simp only [{E}.from_seed, ExtTie.{blk}.from_seed, {cfs}, hc]\n  first | done | rfl")
+    if not hc:
+        add("seed_from_u64", f"∀ x, {E}.seed_from_u64 x = Isaac.seedFromU64_{w} x", ["C09"],
+            f"intro x\n  {have_c}\n  simp only [{E}.seed_from_u64, ExtTie.{blk}.seed_from_u64, ExtTie.{Cn}.seed_from_u64, hc]\n  first | done | rfl")
+    for fn, mfn in (("from_rng", "fromRng"), ("try_from_rng", "tryFromRng")):
+        if hc:
+            add(fn, f"∀ {{ρ : Type}} (fill : TryFill ρ) (src : ρ), {E}.{fn} fill src = Hc128.fromRng fill src", ["C09"],
+                f"intro ρ fill src\n  {have_c}\n  have hf : Ext.{Cn}.from_seed = Hc128.fromSeedCore := funext {cfs}\n"
+                f"  simp only [{E}.{fn}, ExtTie.{blk}.{fn}, ExtTie.RandCoreSeedable.{fn}, hc, hf, fromRngDefault, Hc128.fromRng, Hc128.fromSeed]\n"
+                f"  cases hx : fill src 32 with\n  | mk r s => cases r <;> rfl")
+        else:
+            add(fn, f"∀ {{ρ : Type}} (fill : TryFill ρ) (src : ρ), {E}.{fn} fill src = Isaac.{mfn}{w} fill src", ["C09"],
+                f"intro ρ fill src\n  {have_c}\n  have hf : @Ext.{Cn}.{fn} ρ = Isaac.coreFromRng{w} := by funext fill src; exact ExtTie.{Cn}.{fn} fill src\n"
+                f"  simp only [{E}.{fn}, ExtTie.{blk}.{fn}, hc, hf, Isaac.coreFromRng{w}, Isaac.{mfn}{w}]\n"
+                f"  cases hx : fill src (Isaac.RAND_SIZE * {w // 8}) with\n  | mk r s => cases r <;> rfl")
+    if hc:
+        add("eq", f"∀ a b, {E}.eq a b = Hc128.beq a b", ["C10"],
+            f"intro a b\n  have he : Ext.{Cn}.eq = Hc128.Core.beq := by funext x y; exact ExtTie.{Cn}.eq x y\n"
+            f"  simp only [{E}.eq, he, ExtTie.{blk}.index, Hc128.beq]\n  first | done | rfl")
+    return th, proofs
